@@ -1029,7 +1029,7 @@ class Interp:
         if ia_ is not None and ia_.kind == 'call' and ia_.args[0] in ('zip', 'enumerate', 'range') and not any(
                 a_.kind in ('elem', 'key') and a_.args and a_.args[-1] == cid for a_ in T.all_atoms(elt).values()):
             it_ = T.mk_call('range', [self._trip(it_)])        # position-only element: see sva_expr._comp
-        return Term.of(Atom('comp', 'list', elt, (T.mk_tuple([it_]),)))
+        return Term.of(Atom('comp', 'list', elt, (T.mk_tuple([it_]),), cid.rsplit(':', 1)[0]))
 
     def _accumulator(self, loop, name, info, init, fr):
         """`x += c` once, unconditionally, at the top level of a for body, c loop-invariant:
